@@ -20,6 +20,7 @@ import (
 	pb "github.com/ipfs/boxo/ipld/unixfs/pb"
 	"github.com/ipfs/go-cid"
 	unixfsnode "github.com/ipfs/go-unixfsnode"
+	"github.com/ipfs/go-unixfsnode/data"
 	"github.com/ipfs/go-unixfsnode/directory"
 	"github.com/ipfs/go-unixfsnode/hamt"
 	dagpb "github.com/ipld/go-codec-dagpb"
@@ -226,6 +227,9 @@ func hamtTable(st *Store, hc *HostileCase, ids map[string]cid.Cid) []M {
 			} else {
 				e["kind"] = "unixfs"
 				e["typ"] = int(d.GetType())
+				if wt, ok := wireDataType(pbn.Data.Must().Bytes()); ok && wt > 1<<30 {
+					e["typ"] = 1 << 30 // the generated enum type holds 32 bits; the value on the wire is what counts
+				}
 				e["hashOK"] = d.HashType != nil && *d.HashType == 0x22
 				if d.Fanout != nil {
 					v := int(int64(*d.Fanout))
@@ -347,11 +351,46 @@ func fileTable(st *Store, hc *HostileCase, ids map[string]cid.Cid) ([]M, bool) {
 // ---- exercising a node through every operation, under recover and budgets ----
 
 type opResult struct {
+	Rec   M // op "pair": the generic-method records of the first yielded key and value
 	Op    string
 	Out   string // value | error | panic | budget | timeout
 	Steps int
 	Info  string
 	Key   int // lookups: 1-based index of the key among the case's names (0 otherwise)
+}
+
+// probeNode: the outcome of every generic datamodel.Node method of nd (AsBytes is skipped on bytes nodes: on a
+// file it reads the whole file)
+func probeNode(node ipld.Node) M {
+	eo := func(err error) string {
+		if err != nil {
+			return "err"
+		}
+		return "ok"
+	}
+	_, e1 := node.AsBool()
+	_, e2 := node.AsInt()
+	_, e3 := node.AsFloat()
+	_, e4 := node.AsString()
+	_, e5 := node.AsLink()
+	rec := M{"kind": node.Kind().String(), "asbool": eo(e1), "asint": eo(e2), "asfloat": eo(e3), "asstring": eo(e4), "aslink": eo(e5),
+		"isnull": node.IsNull(), "isabsent": node.IsAbsent(), "len": min(node.Length(), 1<<30), // TLC integers are 32-bit
+		"listiter": map[bool]string{true: "nil", false: "non"}[node.ListIterator() == nil]}
+	if node.Kind() != datamodel.Kind_Bytes {
+		_, e6 := node.AsBytes()
+		rec["asbytes"] = eo(e6)
+	} else {
+		rec["asbytes"] = "ok"
+	}
+	_, e7 := node.LookupByIndex(0)
+	rec["idx0"] = eo(e7)
+	_, e8 := node.LookupByString("x")
+	_, e9 := node.LookupByNode(basicnode.NewString("x"))
+	_, e10 := node.LookupBySegment(datamodel.PathSegmentOfString("x"))
+	rec["lookups"] = map[bool]string{true: "err", false: "some-ok"}[e8 != nil && e9 != nil && e10 != nil]
+	rec["mapiter"] = map[bool]string{true: "nil", false: "non"}[node.MapIterator() == nil]
+	rec["proto"] = node.Prototype() != nil
+	return rec
 }
 
 func timed(f func() (string, int, string)) (out string, steps int, info string) {
@@ -417,7 +456,7 @@ func exerciseNode(n ipld.Node, names []string, budget int, only ...string) []opR
 		}
 		defer func() { stuck = stuck || res[len(res)-1].Out == "timeout" }()
 		out, steps, info := timed(f)
-		res = append(res, opResult{op, out, steps, info, curKey})
+		res = append(res, opResult{Op: op, Out: out, Steps: steps, Info: info, Key: curKey})
 	}
 	add("kind", func() (string, int, string) { return "value", 0, n.Kind().String() })
 	add("length", func() (string, int, string) { return "value", 0, fmt.Sprint(n.Length()) })
@@ -477,6 +516,25 @@ func exerciseNode(n ipld.Node, names []string, budget int, only ...string) []opR
 			it.Next()
 			return "value", steps, fmt.Sprintf("errs=%d", errs)
 		})
+		// the first pair a fresh iterator yields: the key and the value are nodes in their own right
+		var pairRec M
+		add("pair", func() (string, int, string) {
+			it := n.MapIterator()
+			if it == nil {
+				return "value", 0, "none"
+			}
+			for steps := 0; !it.Done() && steps < budget; steps++ {
+				k, v, err := it.Next()
+				if err == nil && k != nil && v != nil {
+					pairRec = M{"k": probeNode(k), "v": probeNode(v)}
+					return "value", steps, "pair"
+				}
+			}
+			return "value", 0, "none"
+		})
+		if len(res) > 0 && res[len(res)-1].Op == "pair" {
+			res[len(res)-1].Rec = pairRec
+		}
 		if it := nativeIteratorOf(n); it != nil {
 			add("iter-native", func() (string, int, string) {
 				it := nativeIteratorOf(n)
@@ -537,6 +595,37 @@ func exerciseNode(n ipld.Node, names []string, budget int, only ...string) []opR
 	return res
 }
 
+// wireDataType: the value of field 1 (Type) of a UnixFS Data message as it stands on the wire (last occurrence)
+func wireDataType(b []byte) (v uint64, ok bool) {
+	for len(b) > 0 {
+		num, typ, n := protowire.ConsumeTag(b)
+		if n < 0 {
+			return v, ok
+		}
+		b = b[n:]
+		if num == 1 && typ == protowire.VarintType {
+			x, m := protowire.ConsumeVarint(b)
+			if m < 0 {
+				return v, ok
+			}
+			v, ok = x, true
+		}
+		m := protowire.ConsumeFieldValue(num, typ, b)
+		if m < 0 {
+			return v, ok
+		}
+		b = b[m:]
+	}
+	return v, ok
+}
+
+func ctorOrEmpty(c M) M {
+	if c == nil {
+		return M{}
+	}
+	return c
+}
+
 // rootMembers: the 1-based indices, among the case's lookup keys, of the names the root block's links carry
 func rootMembers(hc *HostileCase) []int {
 	out := []int{}
@@ -566,6 +655,7 @@ func rootMembers(hc *HostileCase) []int {
 func runHostileCase(hc *HostileCase, tr *Tr) error {
 	fhH, fhRoot := []M{}, 0
 	var hmH []M
+	var ctor M
 	var hmDigits [][]int
 	hmRoot := 0
 	st := NewStore()
@@ -639,6 +729,31 @@ func runHostileCase(hc *HostileCase, tr *Tr) error {
 		if err != nil {
 			return fmt.Errorf("hostile: root does not decode as dag-pb: %w", err)
 		}
+		// the exported constructors called directly on the root (what the reifier does after its type switch)
+		if pbn, isPB := rootNode.(dagpb.PBNode); isPB && len(hc.Ops) == 0 {
+			for i, hb := range hc.Blocks {
+				if hb.ID == hc.Root {
+					ctor = M{"rootE": hamtTable(st, hc, ids)[i], "attempt": "err", "basicdir": "na", "shard": "na"}
+				}
+			}
+			if ctor != nil {
+				if pm := guard(func() {
+					if _, err := hamt.AttemptHAMTShardFromNode(context.Background(), rootNode, ls); err == nil {
+						ctor["attempt"] = "ok"
+					}
+					if pbn.FieldData().Exists() {
+						if ud, err := data.DecodeUnixFSData(pbn.FieldData().Must().Bytes()); err == nil {
+							_, e1 := directory.NewUnixFSBasicDir(context.Background(), pbn, ud, ls)
+							_, e2 := hamt.NewUnixFSHAMTShard(context.Background(), pbn, ud, ls)
+							ctor["basicdir"] = map[bool]string{true: "ok", false: "err"}[e1 == nil]
+							ctor["shard"] = map[bool]string{true: "ok", false: "err"}[e2 == nil]
+						}
+					}
+				}); pm != nil {
+					ctor["attempt"] = "panic"
+				}
+			}
+		}
 	}
 	st.logLoads = true
 	var node ipld.Node
@@ -696,39 +811,14 @@ func runHostileCase(hc *HostileCase, tr *Tr) error {
 	}
 	adlRec := M{}
 	if out == "value" && node != nil {
-		eo := func(err error) string {
-			if err != nil {
-				return "err"
-			}
-			return "ok"
-		}
-		probe := func() {
-			_, e1 := node.AsBool()
-			_, e2 := node.AsInt()
-			_, e3 := node.AsFloat()
-			_, e4 := node.AsString()
-			_, e5 := node.AsLink()
-			adlRec = M{"asbool": eo(e1), "asint": eo(e2), "asfloat": eo(e3), "asstring": eo(e4), "aslink": eo(e5),
-				"isnull": node.IsNull(), "isabsent": node.IsAbsent(), "len": min(node.Length(), 1<<30), // TLC integers are 32-bit
-				"listiter": map[bool]string{true: "nil", false: "non"}[node.ListIterator() == nil]}
-			if node.Kind() != datamodel.Kind_Bytes {
-				// AsBytes on a file reads the whole file; only probe it on the other kinds
-				_, e6 := node.AsBytes()
-				adlRec["asbytes"] = eo(e6)
-			} else {
-				adlRec["asbytes"] = "ok"
-			}
-			_, e7 := node.LookupByIndex(0)
-			adlRec["idx0"] = eo(e7)
-			adlRec["mapiter"] = map[bool]string{true: "nil", false: "non"}[node.MapIterator() == nil]
-		}
+		probe := func() { adlRec = probeNode(node) }
 		if o, _, _ := timed(func() (string, int, string) { probe(); return "value", 0, "" }); o == "timeout" {
 			// one of the generic node methods (Length, on a map) never returned
 			adlRec, res = M{}, "timeout"
 		}
 	}
 	tr.Emit(M{"ev": "reify", "adl": adlRec, "cls": hc.Class, "variant": hc.Open, "res": res, "kind": kind, "subSame": subSame, "reenc": reenc,
-		"H": hmH, "hroot": hmRoot, "hdigits": hmDigits, "FH": fhH, "fhroot": fhRoot, "members": rootMembers(hc),
+		"ctor": ctorOrEmpty(ctor), "H": hmH, "hroot": hmRoot, "hdigits": hmDigits, "FH": fhH, "fhroot": fhRoot, "members": rootMembers(hc),
 		"e": res, "info": info, "isADL": subSame || reenc || res == "file" || res == "dir" || res == "hamtdir" || res == "linkmap"})
 	if out != "value" || node == nil || res == "timeout" {
 		return nil
@@ -750,6 +840,9 @@ func runHostileCase(hc *HostileCase, tr *Tr) error {
 	for _, r := range exerciseNode(node, hc.Names, budget, hc.Ops...) {
 		ev := M{"ev": "hop", "op": r.Op, "out": r.Out, "e": r.Out, "steps": r.Steps, "budget": budget, "info": r.Info, "key": r.Key,
 			"errs": -1, "n": -1}
+		if r.Rec != nil {
+			ev["pair"] = r.Rec
+		}
 		var x int
 		if _, err := fmt.Sscanf(r.Info, "errs=%d", &x); err == nil {
 			ev["errs"] = x
